@@ -41,6 +41,9 @@ CLAUSES = {
     "B.eval.vectorized": "eval_vectorized(array of shape (..., d)) reshaped to (..., output_length) equals eval point by point (also for n=0)",
     "B.eval.consistent": "all values returned for one and the same point within a history (single/batch/vectorised, cache on/off, before/after reset) agree",
     "B.count.distinct": "while caching is on get_f_dict_size() == number of distinct points passed to __call__ since the last reset; == 0 right after reset_dictionary()",
+    "B.eval.report_stable": "an array returned by f(...) / eval_vectorized earlier in the history (kept by the caller without copying) still holds the reported values at the end of the history",
+    "B.cache.consistent": "at the end of a history every (point, value) pair exposed by get_f_dict_points()/get_f_dict_values() equals eval(point)",
+    "B.int.idempotent": "getAnalyticSolutionIntegral(start, end) asked twice on the same instance (evaluations of the function in between) returns the same value; the first returned object is unchanged",
     "B.int.returns": "getAnalyticSolutionIntegral(start, end) returns normally a number/array (not None) for a box in the domain",
     "B.int.analytic": "closed-form getAnalyticSolutionIntegral(start, end) == Gauss-Legendre quadrature of eval over the box",
     "B.int.numeric": "scipy-based getAnalyticSolutionIntegral (base-class default, FunctionUQ*, FunctionUQNormal*: weighted with the truncated normal density) == own quadrature, rel 5e-3 (the library value is itself an adaptive scipy quadrature, partly across a jump)",
@@ -236,6 +239,18 @@ def run_seq(ctx, cfg, ops, seed):
     cname = type(f).__name__
     d = cfg["d"]
     declared = int(ref.output_length())
+    # sibling: another live instance of the same class (other parameters where the table has them) that is used in between;
+    # nothing it does may influence f (no state shared between instances)
+    if "_sib" not in cfg:
+        cand = [c for c in configs() if c["name"] != cfg["name"] and c["d"] == d and c["lo"] == cfg["lo"] and c["hi"] == cfg["hi"]
+                and c["name"].split("/")[0].split("(")[0] == cfg["name"].split("/")[0].split("(")[0]]
+        cfg["_sib"] = cand[0] if cand else cfg
+    with quiet():
+        sib = cfg["_sib"]["make"]()
+    if type(sib) is not type(f):
+        with quiet():
+            sib = cfg["make"]()
+    kept = []            # (path, returned object, copy taken at report time)
 
     def oracle(p):
         with quiet():
@@ -294,6 +309,12 @@ def run_seq(ctx, cfg, ops, seed):
                 arg = list(p) if rng.random() < 0.5 else np.array(p)
             site, wc = where("single")
             done = False
+            if rng.random() < 0.3:
+                try:
+                    with quiet():
+                        sib(arg)
+                except Exception:
+                    pass          # the sibling's own failures are reported when that configuration is the one under test
             with ctx.guard("B.eval.single", site, wc):
                 with quiet():
                     r = f(arg)
@@ -301,6 +322,7 @@ def run_seq(ctx, cfg, ops, seed):
             if done:
                 evaluated = True
                 distinct.add(p)
+                kept.append(("single", r, np.array(r, dtype=float, copy=True) if isinstance(r, np.ndarray) else None))
                 okshape = isinstance(r, np.ndarray) and r.shape == (declared,)
                 ctx.check("B.eval.single", okshape, SITE_CALL, "shape-single-" + state(), "%s: shape %s, declared %d" % (cname, getattr(r, "shape", None), declared))
                 if okshape:
@@ -321,6 +343,12 @@ def run_seq(ctx, cfg, ops, seed):
                 arg = [list(p) for p in pts] if rng.random() < 0.5 else np.array(pts)
             site, wc = where("batch")
             done = False
+            if rng.random() < 0.3:
+                try:
+                    with quiet():
+                        sib(arg)
+                except Exception:
+                    pass
             with ctx.guard("B.eval.batch", site, wc):
                 with quiet():
                     r = f(arg)
@@ -328,6 +356,7 @@ def run_seq(ctx, cfg, ops, seed):
             if done:
                 evaluated = True
                 distinct.update(pts)
+                kept.append(("batch", r, np.array(r, dtype=float, copy=True) if isinstance(r, np.ndarray) else None))
                 okshape = isinstance(r, np.ndarray) and r.shape == (len(pts), declared)
                 ctx.check("B.eval.batch", okshape, SITE_CALL, "shape-batch-" + state(),
                           "%s: shape %s for %d points, declared %d" % (cname, getattr(r, "shape", None), len(pts), declared))
@@ -365,6 +394,7 @@ def run_seq(ctx, cfg, ops, seed):
                     r = np.asarray(f.eval_vectorized(arr))
                 done = True
             if done:
+                kept.append((kind, r, np.array(r, dtype=float, copy=True)))
                 vsite = "sparseSpACE.Function:%s.eval_vectorized" % cname
                 oksize = r.size == len(pts) * declared
                 ctx.check("B.eval.vectorized", oksize, vsite, "size-" + kind, "%s: result shape %s for input %s, declared %d" % (cname, r.shape, arr.shape, declared))
@@ -386,6 +416,27 @@ def run_seq(ctx, cfg, ops, seed):
             n = f.get_f_dict_size()
             ctx.check("B.count.distinct", n == len(distinct), "sparseSpACE.Function:Function.get_f_dict_size", "count-after-" + op,
                       "%s: get_f_dict_size()=%d, distinct points since reset=%d (ops %s)" % (cname, n, len(distinct), ops))
+    # ---- end of the history ------------------------------------------------------------------------------------
+    for (path, obj, cp) in kept:
+        if cp is None:
+            continue
+        ctx.check("B.eval.report_stable", isinstance(obj, np.ndarray) and obj.shape == cp.shape and bool(np.array_equal(np.asarray(obj, dtype=float), cp)),
+                  SITE_CALL if path in ("single", "batch") else "sparseSpACE.Function:%s.eval_vectorized" % cname, "changed-after-" + path,
+                  "%s: array returned by a %s evaluation was changed by later operations (ops %s): now %s, reported %s" % (cname, path, ops, obj, cp))
+    if not mismatch:
+        done = False
+        with ctx.guard("B.cache.consistent", "sparseSpACE.Function:Function.get_f_dict_points", "raises"):
+            keys, vals = f.get_f_dict_points(), f.get_f_dict_values()
+            done = True
+        if done:
+            bad = []
+            for k, v in zip(keys, vals):
+                exp = oracle(k)
+                v = np.atleast_1d(np.asarray(v, dtype=float)).reshape(-1)
+                if v.shape != exp.shape or not close(v, exp, VAL_REL, VAL_ABS):
+                    bad.append((k, v, exp))
+            ctx.check("B.cache.consistent", len(keys) == len(vals) and not bad, SITE_CALL, "cached-value-" + state(),
+                      "%s (ops %s): cached entries that differ from eval: %s" % (cname, ops, bad[:2]))
     return evaluated
 
 
@@ -508,6 +559,22 @@ def run_int(ctx, cfg, start, end):
         return
     if not ctx.check("B.int.returns", val is not None, site, "returns-none", "%s.getAnalyticSolutionIntegral(%s, %s) returned None" % (cname, start, end)):
         return
+    if spec["mode"] == "analytic" or d <= 2:
+        val_copy = np.array(val, dtype=float, copy=True)
+        rngi = random.Random("%s|%s|%s" % (cfg["name"], start, end))
+        pts = [tuple(rngi.uniform(s_, e_) for s_, e_ in zip(start, end)) for _ in range(3)]
+        done = False
+        with ctx.guard("B.int.idempotent", site, "raises-second-call-" + dcl + tag):
+            with quiet():
+                f(pts[0])
+                f(pts)
+                val2 = f.getAnalyticSolutionIntegral(list(start), list(end))
+            done = True
+        if done:
+            same = val2 is not None and np.shape(val2) == np.shape(val_copy) and close(val2, val_copy, 1e-13, 0.0)
+            ctx.check("B.int.idempotent", same, site, "second-call-" + dcl + tag, "%s over %s..%s: first %s, second %s" % (cfg["name"], start, end, val_copy, val2))
+            ctx.check("B.int.idempotent", bool(np.array_equal(np.asarray(val, dtype=float), val_copy)), site, "first-result-changed-" + dcl + tag,
+                      "%s: the object returned first changed from %s to %s" % (cfg["name"], val_copy, val))
     weight = spec["weight"]
 
     def integrand(x):
